@@ -20,7 +20,7 @@ namespace {
 phx::World W;
 
 enum { ROLE_W, ROLE_R };
-enum { O_WRITE, O_WRITEV, O_SEND, O_SENDV, O_READ, O_READV, O_RECV, O_RECVV, O_SLEEP, O_SHUTDOWN };
+enum { O_WRITE, O_WRITEV, O_SEND, O_SENDV, O_READ, O_READV, O_RECV, O_RECVV, O_SLEEP, O_SHUTDOWN, O_RECV_AT_LEAST, O_SKIP };
 struct Op { int conn, dir, role, kind; uint64_t n; int nseg; uint64_t us; int how; };
 std::vector<Op> plan;
 
@@ -86,7 +86,7 @@ void release_and_close(EP& e) {
     if (last) { delete e.s; e.s = nullptr; }
 }
 
-const char* kind_name(int k) { static const char* n[] = {"write", "writev", "send", "send(iovec)", "read", "readv", "recv", "recv(iovec)", "sleep", "shutdown"}; return n[k]; }
+const char* kind_name(int k) { static const char* n[] = {"write", "writev", "send", "send(iovec)", "read", "readv", "recv", "recv(iovec)", "sleep", "shutdown", "recv_at_least", "skip_read"}; return n[k]; }
 
 bool timed_out_legit(EP& me, uint64_t now0, uint64_t sim0, const Op& o, int ci, const char* what) {
     if (me.tmo == -1ULL)
@@ -183,6 +183,25 @@ void reader(int id, int ci, int d) {
     bool dead = false;
     auto do_read = [&](const Op& o, size_t i) {
         bool vec = o.kind == O_READV || o.kind == O_RECVV, full = o.kind == O_READ || o.kind == O_READV;
+        if (o.kind == O_SKIP) {
+            // skip_read(n): reads and drops exactly n bytes; false when the stream ends or fails before that
+            uint64_t c0 = simk::rx_consumed(me.fd), now0 = photon::now, sim0 = sim::now_ns(), pert0 = sim::perturbed_ns();
+            bool ok; int e;
+            { phx::Where w(rec, "skip_read", i); me.in_call++; errno = 0; ok = me.s->skip_read(o.n); e = errno; me.in_call--; }
+            uint64_t delta = simk::rx_consumed(me.fd) - c0;
+            sim::note("op %zu conn %d dir %d: skip_read(%llu) = %d errno %d; kernel handed out %llu; stream offset %llu", i, ci, d, (unsigned long long)o.n, (int)ok, ok ? 0 : e, (unsigned long long)delta, (unsigned long long)D.r_off);
+            (void)sim0; (void)pert0;       // skip_read() is a sequence of read() calls: the stream timeout bounds each of them, not the whole
+            if (delta > o.n) HX_VIOL("read-count", "%s: conn %d: skip_read(%llu) took %llu bytes out of the socket", desc, ci, (unsigned long long)o.n, (unsigned long long)delta);
+            if (ok && delta != o.n) HX_VIOL("read-count", "%s: conn %d: skip_read(%llu) reported success but dropped %llu bytes", desc, ci, (unsigned long long)o.n, (unsigned long long)delta);
+            D.r_off += delta;
+            if (!ok) {
+                if (e == ETIMEDOUT) timed_out_legit(me, now0, sim0, o, ci, "skip_read");
+                else if (delta < o.n && eof_ok(C, me, peer)) { if (!(e == ECONNRESET || e == EPIPE)) at_eof(ci, d, C, me, peer, D); else dead = true; }
+                else if ((e == ECONNRESET || e == EPIPE) && (C.reset || peer.released || simk::was_reset(me.fd))) dead = true;
+                else HX_VIOL("short-read", "%s: conn %d: skip_read(%llu) failed after %llu bytes (errno %d) although the stream has not ended and no timeout occurred", desc, ci, (unsigned long long)o.n, (unsigned long long)delta, e);
+            } else sim::probe("skip_read_ok");
+            return;
+        }
         Buf b; b.make(o.n, vec ? o.nseg : 1, vec);
         uint64_t c0 = simk::rx_consumed(me.fd), now0 = photon::now, sim0 = sim::now_ns(), pert0 = sim::perturbed_ns();
         ssize_t rc; int e;
@@ -195,6 +214,7 @@ void reader(int id, int ci, int d) {
                 case O_READ: rc = me.s->read(b.iov[0].iov_base, o.n); break;
                 case O_READV: rc = me.s->readv(b.iov.data(), b.iov.size()); break;
                 case O_RECV: rc = me.s->recv(b.iov[0].iov_base, o.n); break;
+                case O_RECV_AT_LEAST: rc = me.s->recv_at_least(b.iov[0].iov_base, o.n, o.us /* least */); break;
                 default: rc = me.s->recv(b.iov.data(), (int)b.iov.size()); break;
             }
             e = errno;
@@ -204,7 +224,7 @@ void reader(int id, int ci, int d) {
         sim::note("op %zu conn %d dir %d: %s(%llu bytes, %zu iovec) = %zd errno %d; kernel handed out %llu; stream offset %llu", i, ci, d, kind_name(o.kind), (unsigned long long)o.n, b.iov.size(),
                   rc, rc < 0 ? e : 0, (unsigned long long)delta, (unsigned long long)D.r_off);
         if (!b.guards_ok()) HX_VIOL("overrun", "%s: conn %d: %s(%llu) wrote outside the caller's buffers", desc, ci, kind_name(o.kind), (unsigned long long)o.n);
-        check_not_hung(me, sim0, pert0, o, ci, kind_name(o.kind), rc);
+        if (o.kind != O_RECV_AT_LEAST) check_not_hung(me, sim0, pert0, o, ci, kind_name(o.kind), rc);      // (recv_at_least() is a sequence of recv() calls)
         uint64_t got = rc >= 0 ? (uint64_t)rc : delta;
         if (rc >= 0 && (uint64_t)rc != delta)
             HX_VIOL("read-count", "%s: conn %d: %s(%llu) returned %zd but took %llu bytes out of the socket (bytes lost or invented)", desc, ci, kind_name(o.kind), (unsigned long long)o.n, rc, (unsigned long long)delta);
@@ -219,6 +239,9 @@ void reader(int id, int ci, int d) {
                 if (!eof_ok(C, me, peer))
                     HX_VIOL("short-read", "%s: conn %d: %s(%llu) returned %zd although the peer has neither closed nor shut down its sending side, and no error or timeout occurred", desc, ci,
                             kind_name(o.kind), (unsigned long long)o.n, rc);
+                at_eof(ci, d, C, me, peer, D);
+            } else if (o.kind == O_RECV_AT_LEAST && (uint64_t)rc < o.us) {
+                if (!eof_ok(C, me, peer)) HX_VIOL("short-read", "%s: conn %d: recv_at_least(%llu, least %llu) returned %zd although the stream has not ended", desc, ci, (unsigned long long)o.n, (unsigned long long)o.us, rc);
                 at_eof(ci, d, C, me, peer, D);
             } else if (!full && rc == 0 && o.n > 0) {
                 if (!eof_ok(C, me, peer)) HX_VIOL("short-read", "%s: conn %d: %s(%llu) returned 0 although the stream has not ended", desc, ci, kind_name(o.kind), (unsigned long long)o.n);
@@ -351,6 +374,8 @@ void build() {
                 if (kk == 4 && any_fault) { o.kind = O_SHUTDOWN; o.how = sim::rnd(3); plan.push_back(o); continue; }
                 o.kind = kk < 10 ? O_READ : kk < 14 ? O_READV : kk < 17 ? O_RECV : O_RECVV;
                 o.n = sim::rnd(4) == 0 ? 1 + sim::rnd(16) : 1 + sim::rnd(total / 2 + 64);
+                if (sim::rnd(8) == 0) { o.kind = O_RECV_AT_LEAST; o.us = 1 + sim::rnd(o.n); }       // `us` carries the least count
+                else if (sim::rnd(10) == 0) o.kind = O_SKIP;
                 o.nseg = 1 + sim::rnd(7);
                 plan.push_back(o);
             }
